@@ -557,7 +557,10 @@ class DictArithmetic(dict):
         """
         if isinstance(other, dict):
             items, oitems = tuple(self.items()), tuple(other.items())
-            self.clear()
+            # remove the terms only; ``self.clear()`` would also reset what
+            # subclasses keep besides the terms (eg the ancilla counter and
+            # the constraints of a PCBO), which must survive multiplication.
+            super().clear()
             for k, v in items:
                 kp = k if isinstance(k, tuple) else (k,)
                 for ko, vo in oitems:
